@@ -177,6 +177,10 @@ def subdivide_nodes(nodes):
         left_mat, right_mat = make_subdivision_matrices(num_nodes - 1)
         left_nodes = _py_helpers.matrix_product(nodes, left_mat)
         right_nodes = _py_helpers.matrix_product(nodes, right_mat)
+        # The last column of ``left_mat`` and the first column of ``right_mat``
+        # are identical, but the matrix products may accumulate them in a
+        # different order; the two halves must share their junction point.
+        right_nodes[:, 0] = left_nodes[:, -1]
     return left_nodes, right_nodes
 
 
